@@ -152,6 +152,8 @@ class block_access(TaskletMixin):
         if isinstance(p, slice):
             return block_access_slice(self, p.indices(self.len))
         elif isinstance(p, int):
+            if p < 0:
+                p += self.len
             if not (0 <= p < self.len):
                 raise IndexError
             b = p//self.block_size
